@@ -8,7 +8,7 @@ tier = sys.argv[1]
 seeds = sys.argv[2].split(",")
 nw = int(sys.argv[3]) if len(sys.argv) > 3 else 5
 pids = sys.argv[4].split(",") if len(sys.argv) > 4 else [f"C{i:02d}" for i in range(1, 21)]
-BASE = "/root/scratch/sweep"
+BASE = os.environ.get("SWEEP_BASE", "/root/scratch/sweep")
 jobs = queue.Queue()
 for s in seeds:
     for p in pids:
